@@ -465,7 +465,9 @@ def _dispatch(run, prog, W):
                  f"return {ir.show_nl(v)[:140]} -- an object kept from an earlier call (a wrapper built for another method "
                  f"of the same model, carrying that wrapper's state)")
         break
-    run.need(len([1 for o in run.obligations if o["rule"] == "DISPATCH"]) >= 3 or run.findings, "validator dispatch arms not found")
+    wanted = getattr(run, "_wanted", None)      # included into another check for some rules only: the count is that check's business
+    run.need(wanted is not None or len([1 for o in run.obligations if o["rule"] == "DISPATCH"]) >= 3 or run.findings,
+             "validator dispatch arms not found")
 
 
 _B = "ixai/utils/wrappers/base.py"
